@@ -11,7 +11,7 @@ CLAIMS = {
              "grow_to_at_least_covers (every n < 2^64) and the refutation of the historical int-cast decision are proved in Coq over the model; "
              "the model is run against the real segment_table/concurrent_vector on boundary-dense indices and growth sequences incl. n >= 2^31 on every run. Gate exploration of the real vector "
              "(2-4 logical threads, throwing allocator, directed 'late segment owner' schedules): no construction outside live memory, no element constructed twice, at(i) works or throws, "
-             "grow_to_at_least(n) does not return while a segment below n is unallocated. Two defects found and repaired (fix: bc8f980 int-cast decision; fix: d40e28d early return of the growing call).",
+             "grow_to_at_least(n) does not return while a segment below n is unallocated, every index below size() has storage; real threads: tiling, values, element addresses stable while the vector grows. Two defects found and repaired (fix: bc8f980 int-cast decision; fix: d40e28d early return of the growing call).",
         note="Trusted: Coq kernel, extraction (ExtrOcamlBasic), dump_params, drivers. Modelled not verified: segment allocation/first-block election/"
              "table extension and allocation-failure handling (gate exploration and real-thread oracle runs only); 'constructed' is checked as 'segment allocated and this call's own elements hold its value' — "
              "elements of other calls still in flight may be under construction, as the library documents.",
@@ -50,7 +50,7 @@ CLAIMS = {
         text="For every demand vector and soft limit L>=1 the theorems give: granted workers sum to min(total demand, L), nobody gets more than requested, priority level i receives "
              "min(D_i, remainder), the rounding carry is 0 at every level end; for L=0 at most one mandatory worker, only to an arena with enqueued work. The model of "
              "adjust_demand/set_active_num_workers/update_request is compared with the real market+arena objects after every call.",
-        note="Partial: slot uniqueness, concurrency bound, reserved slots, observer pairing, global_control worker bound and isolation are checked by real-thread oracle runs, not proved "
+        note="Partial: slot uniqueness, concurrency bound, reserved slots, observer pairing, global_control worker bound (arena-oracle), isolation (arena-isolate) and the mandatory worker's withdrawal (arena-mandatory) are checked by real-thread oracle runs, not proved "
              "(no Coq model of try_occupy / observers yet); the write-back glue of reallot (which client receives which result) is tied only by the differential check.",
         ref="4/C16"),
     "C17": dict(
@@ -58,7 +58,7 @@ CLAIMS = {
         text="Proved: size classes (every request 1..8127: big enough, idempotent, monotone, 16/8-byte aligned, index in range), slab objects never overlap header or each other for every k, "
              "a bin never hands out a live object (free-list/bump-pointer invariant for any legal alloc/free order), aligned small requests are that aligned, free() recovers the real object of an "
              "aligned fitting-size pointer, large-object user area lies inside its raw block for every size/alignment/shuffle index incl. the 32-bit ptrDelta. "
-             "Tie: exact (objectSize, slab offset, msize) of every small object and exact placement of every large object in random alloc/free/aligned/realloc sequences, plus a shadow-map/pattern oracle.",
+             "Tie: exact (objectSize, slab offset, msize) of every small object and exact placement of every large object in random alloc/free/aligned/realloc sequences, plus a shadow-map/pattern oracle, also over every C entry point (calloc zero fill, aligned_realloc, posix_memalign, msize, realloc prefix preservation: malloc-api) and cross-thread frees (malloc-xfree).",
         note="Not modelled: backend, back-references, large-object cache, block switching after a slab fills (model marks the bin untracked), public free list / orphaned slabs "
              "(covered only by the shadow-map oracle and the cross-thread run in C18's check).",
         ref="4/C17"),
@@ -83,7 +83,7 @@ CLAIMS = {
         technique="Coq: executable small-step model of the bind/propagate protocol with both mutex disciplines; refutation theorem (explicit interleaving) for the code as found; sound exhaustive exploration (checked closed state sets, Lib/Explore.v, soundness lemma proved) of ALL interleavings of four scenarios for the repaired protocol, and a theorem that the same exploration fails for the protocol as found; real-thread directed replay of the witness",
         text="The model refutes 'every bound descendant is cancelled' for the two-mutex protocol with an explicit schedule (theorem), which the check replays on the real library with a widened race window "
              "(defect found, repaired by fix: commit 27dc20e). For the repaired protocol every interleaving of the listed small configurations (up to 4 contexts, 3 threads) is shown inside Coq (theorem cancel_reaches_descendants_all_interleavings over every reachable configuration, not a schedule prefix) to keep: "
-             "once quiescent, all bound descendants of a cancelled context are cancelled and nothing else is.",
+             "once quiescent, all bound descendants of a cancelled context are cancelled and nothing else is. Real-thread oracles: random context trees with concurrent cancels (ctx-rand); 2-6 threads cancelling one context at once (ctx-race: exactly one caller gets true, sticky until reset(), cancellable again after it, sibling / isolated / parent contexts untouched).",
         note="PARTIAL: the general (unbounded) theorem for the repaired protocol, one-winner and no-spurious for arbitrary trees are not yet proved; the model is hand-written at lock-block granularity and is tied "
              "to the code only through the directed replay and random real-thread runs, not step by step. SC only.",
         ref="4/C04, 8(a)"),
